@@ -17,6 +17,11 @@ package main
 //   typed    seeded random well-typed statements from the typed grammar
 //   mutant   every single-fault mutant of them: the fault placed at every node of the tree
 //            (under !, inside function arguments, IN lists, BETWEEN bounds, select fields)
+//   fieldref select fields that refer to other select fields, defined BEFORE or AFTER their use
+//            (chains of depth 1..3 of every operand type, the field list in definition order,
+//            reversed and mixed), used well typed and ill typed (text + number, number as text
+//            operand, Boolean used arithmetically, non-Boolean under ! / & / WHERE) from another
+//            field, from WHERE and from ORDER BY
 //   not-judged  shapes outside the property's verdict (function parameter types; element access /
 //            membership on list values, dynamically typed like JSON) and the one known finding
 //            (= / != with a float operand): twin comparison only
@@ -936,18 +941,37 @@ func (g *c14gen) stmt() *xstmt {
 		g.key, g.value = true, true
 		s := &xstmt{form: "select"}
 		n := 1 + r.intn(3)
+		refs := r.chance(1, 2)
+		if refs {
+			n = 2 + r.intn(3)
+		}
 		var defined []xalias
 		names := []string{"f1", "f2", "f3", "n"}
 		for i := 0; i < n; i++ {
 			t := pick(r, []xty{tStr, tInt, tFlt, tBool, tSList, tStr, tInt})
-			// field definitions do not refer to other fields (see C05 for names inside fields)
+			// half of the statements: a field definition may use the fields generated so far;
+			// the list is shuffled afterwards, so a field is used before or after its definition
 			g.aliases = nil
+			if refs {
+				g.aliases = defined
+			}
 			f := xfield{e: g.gen(t, r.intn(3))}
+			if f.e.k == xName {
+				// a field that is only a name is never resolved (it stands for its own text)
+				g.aliases = nil
+				f.e = g.gen(t, 1+r.intn(2))
+			}
 			if r.chance(2, 3) {
 				f.alias = names[i]
 				defined = append(defined, xalias{names[i], t})
 			}
 			s.fields = append(s.fields, f)
+		}
+		if refs {
+			for i := len(s.fields) - 1; i > 0; i-- {
+				j := r.intn(i + 1)
+				s.fields[i], s.fields[j] = s.fields[j], s.fields[i]
+			}
 		}
 		g.aliases = defined
 		s.where = g.gen(tBool, 1+r.intn(3))
@@ -1132,11 +1156,133 @@ func c14GridStmt(e *xnode, inWhere bool) *xstmt {
 	return s
 }
 
+// ------------------------------------------------------------------ fields that refer to fields
+
+// a chain c0, c1 = step(c0), ..., cd = step(c(d-1)) of select fields of one operand type
+type c14chain struct {
+	name string
+	leaf func() *xnode
+	step func(prev string) *xnode
+}
+
+func c14Chains() []c14chain {
+	return []c14chain{
+		// the name on the LEFT of +: the type of the sum is read off the referenced field
+		{"text-left", xkey, func(p string) *xnode { return xb("+", xname(p), xs("x")) }},
+		{"text-right", func() *xnode { return xcall("upper", xval()) }, func(p string) *xnode { return xb("+", xs("x"), xname(p)) }},
+		{"text-call", xkey, func(p string) *xnode { return xcall("upper", xname(p)) }},
+		{"num-left", func() *xnode { return xcall("int", xval()) }, func(p string) *xnode { return xb("+", xname(p), xn("1")) }},
+		{"num-mul", func() *xnode { return xcall("strlen", xkey()) }, func(p string) *xnode { return xb("*", xn("2"), xname(p)) }},
+		{"bool-not", func() *xnode { return xcall("is_int", xval()) }, func(p string) *xnode { return xnot(xname(p)) }},
+		{"bool-and", func() *xnode { return xb(">", xkey(), xs("a")) }, func(p string) *xnode { return xb("&", xname(p), xbool(true)) }},
+	}
+}
+
+// what is done with the last field of the chain
+type c14use struct {
+	name string
+	mk   func(t string) *xnode
+}
+
+func c14Uses() []c14use {
+	return []c14use{
+		{"plus-number", func(t string) *xnode { return xb("+", xname(t), xn("1")) }},
+		{"number-plus", func(t string) *xnode { return xb("+", xn("1"), xname(t)) }},
+		{"plus-text", func(t string) *xnode { return xb("+", xname(t), xs("y")) }},
+		{"text-plus", func(t string) *xnode { return xb("+", xs("y"), xname(t)) }},
+		{"times", func(t string) *xnode { return xb("*", xname(t), xn("2")) }},
+		{"minus", func(t string) *xnode { return xb("-", xn("7"), xname(t)) }},
+		{"not", func(t string) *xnode { return xnot(xname(t)) }},
+		{"and", func(t string) *xnode { return xb("&", xname(t), xbool(true)) }},
+		{"greater-number", func(t string) *xnode { return xb(">", xname(t), xn("1")) }},
+		{"greater-text", func(t string) *xnode { return xb(">", xname(t), xs("a")) }},
+		{"equal-boolean", func(t string) *xnode { return xb("=", xname(t), xbool(true)) }},
+		{"prefix", func(t string) *xnode { return xb("^=", xname(t), xs("a")) }},
+		{"in-texts", func(t string) *xnode { return xin(xname(t), xs("ax"), xs("b")) }},
+		{"between-numbers", func(t string) *xnode { return xbetween(xname(t), xn("0"), xn("99")) }},
+		{"call", func(t string) *xnode { return xcall("upper", xname(t)) }},
+	}
+}
+
+// the fields of a chain of depth d in the given order: "before" every field is defined before it
+// is used, "after" every field is used before it is defined, "mixed" both
+func c14ChainFields(ch c14chain, d int, order string) ([]xfield, string) {
+	fs := []xfield{{ch.leaf(), "c0"}}
+	for i := 1; i <= d; i++ {
+		fs = append(fs, xfield{ch.step(fmt.Sprintf("c%d", i-1)), fmt.Sprintf("c%d", i)})
+	}
+	top := fmt.Sprintf("c%d", d)
+	switch order {
+	case "after":
+		for i, j := 0, len(fs)-1; i < j; i, j = i+1, j-1 {
+			fs[i], fs[j] = fs[j], fs[i]
+		}
+	case "mixed":
+		// c1, c0, c2, c3 -> c1 c0 c3 c2 ...: neighbours swapped
+		for i := 0; i+1 < len(fs); i += 2 {
+			fs[i], fs[i+1] = fs[i+1], fs[i]
+		}
+	}
+	return fs, top
+}
+
+func c14FieldRefs(e *emitter, full bool, sample func(int) bool) {
+	// the statement of the repaired defect and its accepted / rejected neighbours, always (first: the replay of a violation is the first failing case)
+	zq := func(a, b, c xfield) *xstmt {
+		return &xstmt{form: "select", fields: []xfield{a, b, c}, where: xb(">", xkey(), xs("a"))}
+	}
+	zq0 := func() xfield { return xfield{xb("+", xname("zq1"), xs("x")), "zq0"} }
+	zq1 := func() xfield { return xfield{xkey(), "zq1"} }
+	zq2n := func() xfield { return xfield{xb("+", xname("zq0"), xn("1")), "zq2"} }
+	zq2s := func() xfield { return xfield{xb("+", xname("zq0"), xs("y")), "zq2"} }
+	c14Classify(e, zq(zq2n(), zq0(), zq1()), "fieldref", "forward-reference/text-plus-number")
+	c14Classify(e, zq(zq0(), zq1(), zq2n()), "fieldref", "forward-reference/text-plus-number")
+	c14Classify(e, zq(zq2s(), zq0(), zq1()), "fieldref", "forward-reference/text-plus-text")
+	c14Classify(e, zq(zq1(), zq0(), zq2s()), "fieldref", "forward-reference/text-plus-text")
+	for _, w := range []*xnode{xb(">", xname("zq0"), xn("1")), xb(">", xname("zq0"), xs("a")), xb(">", xb("+", xname("zq0"), xn("1")), xn("1"))} {
+		c14Classify(e, &xstmt{form: "select", fields: []xfield{zq0(), zq1()}, where: w.clone()}, "fieldref", "forward-reference/where")
+		c14Classify(e, &xstmt{form: "select", fields: []xfield{zq1(), zq0()}, where: w.clone()}, "fieldref", "forward-reference/where")
+	}
+	all := func() *xnode { return xb(">=", xkey(), xs("")) }
+	for _, ch := range c14Chains() {
+		for d := 1; d <= 3; d++ {
+			for _, order := range []string{"before", "after", "mixed"} {
+				what := fmt.Sprintf("%s/depth%d/%s", ch.name, d, order)
+				// the chain alone, and ordered by its last field
+				if full || d == 2 || sample(3) {
+					fs, top := c14ChainFields(ch, d, order)
+					c14Classify(e, &xstmt{form: "select", fields: fs, where: all()}, "fieldref", what+"/alone")
+					fs, top = c14ChainFields(ch, d, order)
+					c14Classify(e, &xstmt{form: "select", fields: fs, where: all(), order: []xorder{{name: top}}}, "fieldref", what+"/order-by")
+					fs, top = c14ChainFields(ch, d, order)
+					c14Classify(e, &xstmt{form: "select", fields: fs, where: xname(top)}, "fieldref", what+"/where-root")
+				}
+				for _, u := range c14Uses() {
+					if !full && !sample(6) && !(d == 2 && order == "after" && (u.name == "plus-number" || u.name == "plus-text")) {
+						continue // quick tier: a sixth of the uses, plus the shape of the repaired defect
+					}
+					// from another field, placed first (used before every definition) or last
+					fs, top := c14ChainFields(ch, d, order)
+					c14Classify(e, &xstmt{form: "select", fields: append([]xfield{{u.mk(top), "u"}}, fs...), where: all()}, "fieldref", what+"/field-first:"+u.name)
+					fs, top = c14ChainFields(ch, d, order)
+					c14Classify(e, &xstmt{form: "select", fields: append(fs, xfield{u.mk(top), "u"}), where: all()}, "fieldref", what+"/field-last:"+u.name)
+					// from the WHERE clause
+					fs, top = c14ChainFields(ch, d, order)
+					c14Classify(e, &xstmt{form: "select", fields: fs, where: u.mk(top)}, "fieldref", what+"/where:"+u.name)
+					// a field that uses the chain, ordered by
+					fs, top = c14ChainFields(ch, d, order)
+					c14Classify(e, &xstmt{form: "select", fields: append([]xfield{{u.mk(top), "u"}}, fs...), where: all(), order: []xorder{{name: "u", desc: true}}}, "fieldref", what+"/order-by-user:"+u.name)
+				}
+			}
+		}
+	}
+}
+
 func runC14(c *runCtx) error {
 	r := newRng(c.seed)
 	header := "From Coq Require Import List String ZArith.\nFrom KV Require Import Base.Bytes Model.Ast Model.Checker Corr.C14.\nImport ListNotations.\nOpen Scope string_scope.\n"
 	e := newEmitter(c.out, "C14", header, 400)
-	e.m.Rule = "statements are built by the harness's own typed AST generator and rendered to text; grid: every binary operator x 23 operand atoms on either side (literals, key/value, names, field names of every type, calls of every result type, compound operands), ! x atom, IN lists and BETWEEN bounds x atoms, function argument counts, field access shapes, PUT / REMOVE / DELETE forms x atoms; typed: seeded random well-typed statements (depth <= 3); mutant: every single-fault mutant of each typed statement, the fault (wrong operand type, other operator, unknown function, argument count, misplaced aggregate, forbidden keyword, undefined name, field-name kind) placed at every node; non-trivial = every case (each is a distinct statement judged against the typing rules); distinct = distinct Gallina case terms"
+	e.m.Rule = "statements are built by the harness's own typed AST generator and rendered to text; grid: every binary operator x 23 operand atoms on either side (literals, key/value, names, field names of every type, calls of every result type, compound operands), ! x atom, IN lists and BETWEEN bounds x atoms, function argument counts, field access shapes, PUT / REMOVE / DELETE forms x atoms; typed: seeded random well-typed statements (depth <= 3); fieldref: select fields that refer to select fields defined before or after them (7 chains of depth 1..3 over text / number / Boolean definitions x 3 field orders x 15 uses of the last field from a field placed first / last, from WHERE, under ORDER BY; typed statements: half of them with field definitions that use other fields, the field list shuffled); mutant: every single-fault mutant of each typed statement, the fault (wrong operand type, other operator, unknown function, argument count, misplaced aggregate, forbidden keyword, undefined name, field-name kind) placed at every node; non-trivial = every case (each is a distinct statement judged against the typing rules); distinct = distinct Gallina case terms"
 	atoms := c14Atoms()
 	ops := []string{"&", "|", "and", "or", "=", "!=", "^=", "~=", "+", "-", "*", "/", ">", ">=", "<", "<="}
 	boolOp := map[string]bool{"&": true, "|": true, "and": true, "or": true, "=": true, "!=": true, "^=": true, "~=": true, ">": true, ">=": true, "<": true, "<=": true}
@@ -1244,6 +1390,8 @@ func runC14(c *runCtx) error {
 		s.order = []xorder{{name: o}}
 		c14Classify(e, s, "grid", "order-by")
 	}
+	// ---------------------------------------------------------------- fields that refer to fields
+	c14FieldRefs(e, full, sample)
 	// ---------------------------------------------------------------- known-finding shapes
 	c14Known(e)
 	// ---------------------------------------------------------------- typed statements and their mutants
@@ -1311,11 +1459,19 @@ func knownShape(s *xstmt) string {
 	c14AliasDefs = map[string]*xnode{}
 	for _, f := range s.fields {
 		if f.alias != "" {
-			if _, dup := c14AliasKinds[f.alias]; !dup {
-				c14AliasKinds[f.alias] = staticKind(f.e)
+			if _, dup := c14AliasDefs[f.alias]; !dup {
 				c14AliasDefs[f.alias] = f.e
 			}
 		}
+	}
+	// a field may use fields defined after it: the kinds are taken once per field, each round
+	// seeing the kinds of the round before (reference chains are no longer than the field list)
+	for round := 0; round <= len(s.fields); round++ {
+		next := map[string]string{}
+		for name, def := range c14AliasDefs {
+			next[name] = staticKind(def)
+		}
+		c14AliasKinds = next
 	}
 	var walk func(n *xnode)
 	walk = func(n *xnode) {
